@@ -114,7 +114,7 @@ theorem tokenValue_digits {m : Str} (hne : m ≠ []) (h : AllDigits m) :
   rw [dGet_numeral_digits hne h]
   exact pyInt_digits hne h
 
-instance instDecEqR {α} [DecidableEq α] : DecidableEq (R α)
+scoped instance instDecEqR {α} [DecidableEq α] : DecidableEq (R α)
   | .ok a, .ok b => if h : a = b then isTrue (by rw [h]) else isFalse (by intro e; cases e; exact h rfl)
   | .error a, .error b => if h : a = b then isTrue (by rw [h]) else isFalse (by intro e; cases e; exact h rfl)
   | .ok _, .error _ => isFalse (by intro e; cases e)
